@@ -23,6 +23,7 @@ func checkC05(c *Ctx, r *Report) {
 	checkVersionDecodeFold(c, r)
 	checkBothCopies(c, r)
 	checkDMGenerators(c, r) // the Data Matrix encoder's own generator polynomials: a symbol written with a wrong one cannot be corrected at all (also C08)
+	checkDMECCBlock(c, r)   // and the arithmetic that uses them (also C08)
 	checkQRInfoReadPositions(c, r)
 	checkQRFunctionPattern(c, r) // which modules carry codewords: a misplaced function-pattern rectangle feeds wrong bits into the blocks
 	checkRSFullParity(c, r)
@@ -31,7 +32,11 @@ func checkC05(c *Ctx, r *Report) {
 	checkQRZigZag(c, r)
 	checkDMDeinterleave(c, r)
 	checkDecodePipelines(c, r)
-	checkRSEncodeQR(c, r) // the symbols whose damage is corrected are written with this parity
+	checkRSEncodeQR(c, r)  // the symbols whose damage is corrected are written with this parity
+	checkRSInstances(c, r) // a decoder is reused for every block and symbol: nothing of an earlier word survives in it (also C04)
+	checkDMPlacement(c, r)
+	checkDMSweep(c, r)           // a module read from the wrong place costs one of the promised corrections (same obligations as under C08)
+	checkDMBlockInterleave(c, r) // each Data Matrix block's check words are computed over that block's own data (also C08)
 	r.Note("Reed-Solomon correction itself is decided under C04 on complete small domains (S-RSWHOLE); not decided: correction for the real block sizes (the same text, larger k and r), detection and sampling of damaged images")
 }
 
